@@ -201,7 +201,8 @@ static const char *prop_override = 0;
 static int fam_on(const fam_t *f)
 {
     if (!fam_filter) return 1;
-    if (!strcmp(fam_filter, "C07")) return f->kind == K_INC;   /* chunking / in-place invariance of the incremental AEAD */
+    if (!strcmp(fam_filter, "C07")) return f->kind == K_INC;
+    if (!strcmp(fam_filter, "C10")) return f->kind == K_MASKED; /* masked == unmasked under every tape */   /* chunking / in-place invariance of the incremental AEAD */
     return !strcmp(fam_filter, f->prop);
 }
 #define FPROP(f) (prop_override ? prop_override : (f)->prop)
@@ -412,6 +413,43 @@ static void case_dec(rng_t *r, uint64_t idx, int thorough)
         if (memcmp(tmp, ct, clen) == 0) continue;
         dec_expect(f, "multi-bit", 0, tmp, clen, v.ad, adlen, v.n, v.k, v.m, i);
     }
+    /* structured multi-bit tag forgeries: differences that cancel under an XOR/ADD fold, byte swaps, rotations */
+    {
+        uint8_t *tg = tmp + mlen;
+        int slow = (f->kind == K_ISAP || f->kind == K_MASKED);
+        if (!slow || (sub % 8) == 1) {
+            for (unsigned b1 = 0; b1 < 128; ++b1)
+                for (unsigned b2 = b1 + 1; b2 < 128; ++b2) {
+                    if (big && ((b1 ^ b2) & 7)) continue;           /* long messages: same bit position in two bytes only */
+                    memcpy(tmp, ct, clen); tg[b1 / 8] ^= (uint8_t)(1u << (b1 % 8)); tg[b2 / 8] ^= (uint8_t)(1u << (b2 % 8));
+                    dec_expect(f, "tag-2bit", 0, tmp, clen, v.ad, adlen, v.n, v.k, v.m, b1 * 128 + b2);
+                }
+        }
+        for (unsigned i1 = 0; i1 < 16; ++i1)
+            for (unsigned i2 = i1 + 1; i2 < 16; ++i2) {
+                uint8_t d = (uint8_t)(1 + rng_below(r, 255));
+                if (slow && ((i2 - i1) & (i2 - i1 - 1))) continue;  /* distances 1,2,4,8 only for the slow families */
+                memcpy(tmp, ct, clen); tg[i1] ^= d; tg[i2] ^= d;
+                dec_expect(f, "tag-xor-cancel", 0, tmp, clen, v.ad, adlen, v.n, v.k, v.m, i1 * 16 + i2);
+                memcpy(tmp, ct, clen); tg[i1] = (uint8_t)(tg[i1] + d); tg[i2] = (uint8_t)(tg[i2] - d);
+                dec_expect(f, "tag-add-cancel", 0, tmp, clen, v.ad, adlen, v.n, v.k, v.m, i1 * 16 + i2);
+                if (ct[mlen + i1] != ct[mlen + i2]) {
+                    memcpy(tmp, ct, clen); tg[i1] = ct[mlen + i2]; tg[i2] = ct[mlen + i1];
+                    dec_expect(f, "tag-swap", 0, tmp, clen, v.ad, adlen, v.n, v.k, v.m, i1 * 16 + i2);
+                }
+            }
+        for (unsigned rot = 1; rot < 16; ++rot) {
+            memcpy(tmp, ct, clen);
+            for (unsigned i1 = 0; i1 < 16; ++i1) tg[i1] = ct[mlen + (i1 + rot) % 16];
+            if (memcmp(tmp, ct, clen)) dec_expect(f, "tag-rotate", 0, tmp, clen, v.ad, adlen, v.n, v.k, v.m, rot);
+        }
+        /* same delta in two ciphertext bytes one rate block apart (cancels in a block-wise fold) */
+        for (i = 0; i + f->rate < mlen && i < 64; ++i) {
+            uint8_t d = (uint8_t)(1 + rng_below(r, 255));
+            memcpy(tmp, ct, clen); tmp[i] ^= d; tmp[i + f->rate] ^= d;
+            dec_expect(f, "ct-xor-cancel", 0, tmp, clen, v.ad, adlen, v.n, v.k, v.m, i);
+        }
+    }
     /* tag replaced by: all zero, tag with last byte only wrong, first byte only wrong, tag of another message */
     memcpy(tmp, ct, clen); memset(tmp + mlen, 0, 16); if (memcmp(tmp, ct, clen)) dec_expect(f, "tag-zero", 0, tmp, clen, v.ad, adlen, v.n, v.k, v.m, 0);
     memcpy(tmp, ct, clen); tmp[clen - 1] = (uint8_t)~tmp[clen - 1]; dec_expect(f, "tag-lastbyte", 0, tmp, clen, v.ad, adlen, v.n, v.k, v.m, 0);
@@ -540,7 +578,7 @@ int main(int argc, char **argv)
     vf_prop = "C01";
     vf_parse_args(argc, argv, &a);
     mode = a.arg ? a.arg : "enc";
-    if (strchr(mode, ':')) { static char mb[32]; snprintf(mb, sizeof(mb), "%s", mode); *strchr(mb, ':') = 0; fam_filter = strchr(mode, ':') + 1; mode = mb; if (!strcmp(fam_filter, "C07")) prop_override = "C07"; }
+    if (strchr(mode, ':')) { static char mb[32]; snprintf(mb, sizeof(mb), "%s", mode); *strchr(mb, ':') = 0; fam_filter = strchr(mode, ':') + 1; mode = mb; if (!strcmp(fam_filter, "C07")) prop_override = "C07"; if (!strcmp(fam_filter, "C10")) prop_override = "C10"; }
     if (!strcmp(mode, "enc")) {
         /* exhaustive small grid per family first: (4r+3)^2 <= 67^2 = 4489 sub-cases, then random */
         uint64_t grid = 35ull * 35ull, gridmax = 67ull * 67ull;
